@@ -168,12 +168,15 @@ CLAIMED = {
  "C08": dict(
    text="Theorems: the hex printer emits exactly two lower-case hex digits per byte and is injective; the printed stack (one line per item, "
         "bottom first) determines the stack; an exit-0 run means the session of C01 ran to the end without error and stdout is exactly that "
-        "rendering (C08_outcome). PARTIAL (stated): process-level facts (isatty, signals, stdio, getopt) and independence from --quiet / "
+        "rendering (C08_outcome); NEVER EXITS ABNORMALLY: for any script text, stack arguments, flag modification and -z, unless a value parser "
+        "aborts inside a transform, the run ends with a result or a diagnostic - no crash outcome of any operation and the run-to-end loop "
+        "finishes within its fuel because every step strictly decreases the number of steps left (C08_never_exits_abnormally, "
+        "C08_every_step_decreases_the_steps_left). PARTIAL (stated): process-level facts (isatty, signals, stdio, getopt) and independence from --quiet / "
         "--debug / DEBUG_* are observed by running the real binary, not proved. Tie: the rebuilt btcdeb binary on hand-made and "
         "grammar-generated scripts (incl. every exception class) x {script on argv with a pty as stdin, script on stdin} x option variants: "
         "exit status / signal, stdout bytes, stderr message vs the extracted Cli.main_noninteractive.",
    note=TB + "stdout on a FAILING run (the dual-stack table) is not modelled; only exit status and the stderr message are compared there.",
-   technique="Coq proofs on printer + outcome inversion; differential correspondence against the real binary under pipes/ptys",
+   technique="Coq proofs on printer, outcome inversion, termination and absence of crash outcomes; differential correspondence against the real binary under pipes/ptys",
    ref="DESIGN.md §2 C08"),
  "C09": dict(
    text="Theorems over GENERATED tables (svf table, STANDARD set, every flag test of the executed interpreter code): 21 distinct names with "
